@@ -418,7 +418,7 @@ def part_repr(i, r, case, pats=None):
         for sem in ('real', 'log', 'viterbi', 'bool'):
             S = IR.semiring(sem, 'float64')
             zero = S.from_int(0).item()
-            for da, db in ((zero, zero), ((5. if sem != 'bool' else True), zero)) + (((inf, zero), (zero, inf)) if sem != 'bool' else ()):
+            for da, db in ((zero, zero), ((5. if sem != 'bool' else True), zero)) + (((inf, zero), (zero, inf), (5., 5.), (5., 2.)) if sem != 'bool' else ((True, True),)):
                 key = (case, pa, pb, sem, da, db)
                 try:
                     if sem == 'bool':
@@ -430,7 +430,7 @@ def part_repr(i, r, case, pats=None):
                         b = P.instantiate(pb, db, offset=3)
                         if sem != 'real':
                             a = PatternedTensor(a.physical.log(), a.paxes, a.vaxes, da if da in (zero, inf) else math.log(da))
-                            b = PatternedTensor(b.physical.log(), b.paxes, b.vaxes, db)      # db is the semiring zero or inf
+                            b = PatternedTensor(b.physical.log(), b.paxes, b.vaxes, db if db in (zero, inf) else math.log(db))
                     A, B = a.to_dense(), b.to_dense()
                     variants = [('', a, b, A, B)]
                     if a.ndim == 2:
